@@ -8,6 +8,8 @@ type scope struct {
 	outer           *scope
 	declarationList []ast.Declaration
 	labels          []string
+	labelIteration  []bool // labelIteration[i]: labels[i] is in the label set of an iteration statement
+	pendingLabels   int    // number of labels that directly prefix the statement being parsed
 	allowIn         bool
 	inIteration     bool
 	inSwitch        bool
@@ -27,6 +29,19 @@ func (p *parser) closeScope() {
 
 func (p *scope) declare(declaration ast.Declaration) {
 	p.declarationList = append(p.declarationList, declaration)
+}
+
+// hasIterationLabel reports whether name labels an enclosing iteration statement (12.7).
+func (p *scope) hasIterationLabel(name string) bool {
+	for index, label := range p.labels {
+		if label == name {
+			return p.labelIteration[index]
+		}
+	}
+	if p.outer != nil && !p.inFunction {
+		return p.outer.hasIterationLabel(name)
+	}
+	return false
 }
 
 func (p *scope) hasLabel(name string) bool {
